@@ -413,3 +413,18 @@ pub fn permuted_schema(schema: &apache_avro::Schema, perm: u64) -> apache_avro::
     // a definition must still precede its references: fall back to the original order if not
     apache_avro::Schema::parse(&j).unwrap_or_else(|_| schema.clone())
 }
+
+
+/// A second generation of `Flat`: another Rust type whose schema has the same full name but other
+/// fields (what a service sees when two versions of a record live in one process).
+pub mod gen2 {
+    use apache_avro::AvroSchema;
+    use serde::{Deserialize, Serialize};
+    #[derive(Serialize, Deserialize, AvroSchema, Clone, Debug, PartialEq)]
+    pub struct Flat {
+        pub a: i64,
+        pub b: String,
+        pub c: bool,
+        pub d: i32,
+    }
+}
